@@ -106,9 +106,25 @@ def job(spec):
     in_hdr, _ = fixtures.parse_sigproc(open(names[0], "rb").read())
     hdr = {"files": files, "nbits": nbits, "nchans": c, "vals": [int(x) for x in data.ravel()], "N": n}
     recs = []
+    # ONE reader object serves the whole job: results must not depend on what the object did before
+    # (cached statistics, stream position left by an earlier call, a reused buffer ...)
+    fil = FilReader(names)
     for ci, call in enumerate(spec["calls"]):
-        fil = FilReader(names)
         op, gulp, start, nsamps = call["op"], call["gulp"], call["start"], call["nsamps"]
+        pre = []
+        if spec.get("history", True):
+            r = int(rng.integers(0, 4))
+            if r == 0 and n - nsamps > 0:      # statistics over ANOTHER window of the same length
+                o = int(rng.integers(0, n - nsamps + 1))
+                fil.compute_stats(gulp=max(1, gulp), start=o, nsamps=nsamps, quiet=True)
+                pre.append(["compute_stats", o, nsamps])
+            elif r == 1:
+                o = int(rng.integers(0, n))
+                fil.read_block(o, int(rng.integers(1, n - o + 1)))
+                pre.append(["read_block", o])
+            elif r == 2:
+                fil.bandpass(gulp=int(rng.integers(1, n + 2)), quiet=True)
+                pre.append(["bandpass"])
         base = str(d / f"o_{spec['id']}_{ci}")
         for f in d.glob(f"o_{spec['id']}_{ci}*"):
             f.unlink()
@@ -117,7 +133,7 @@ def job(spec):
         kw = {"gulp": gulp, "start": start, "nsamps": nsamps, "quiet": True}
         outs = []
         rec = {"op": op, "gulp": gulp, "start": start, "nsamps": nsamps, "params": {k: v for k, v in call.items()
-               if k not in ("op", "gulp", "start", "nsamps")}, "del": [0] * c}
+               if k not in ("op", "gulp", "start", "nsamps")}, "del": [0] * c, "pre": pre}
         try:
             if op == "invert":
                 outs = [fil.invert_freq(outfile_name=base + ".fil", **kw)]
@@ -127,9 +143,10 @@ def job(spec):
             elif op == "extract_samps":
                 outs = [fil.extract_samps(start, nsamps, outfile_name=base + ".fil", gulp=gulp, quiet=True)]
             elif op == "extract_chans":
-                outs = fil.extract_chans(np.array(call["chans"]), outfile_base=base, **kw)
+                outs = fil.extract_chans(np.array(call["chans"]), outfile_base=base, batch_size=call.get("batch_size", 200), **kw)
             elif op == "extract_bands":
-                outs = fil.extract_bands(call["chanstart"], call["nchans"], call["chanpersub"], outfile_base=base, **kw)
+                outs = fil.extract_bands(call["chanstart"], call["nchans"], call["chanpersub"], outfile_base=base,
+                                         batch_size=call.get("batch_size", 200), **kw)
             elif op == "downsample":
                 outs = [fil.downsample(call["tf"], call["ff"], outfile_name=base + ".fil", **kw)]
             elif op == "subband":
@@ -175,8 +192,8 @@ def job(spec):
             gc.collect()
             rec["c20"] = [c20_material(d, w, fname) for fname, w in wfiles.items()]
         rec["in_hdr"] = in_hdr
-        fil._file.close()
         recs.append(rec)
+    fil._file.close()
     return {"hdr": hdr, "recs": recs, "spec": {k: spec[k] for k in ("N", "C", "nbits", "split", "data", "id")},
             "band": band}
 
